@@ -1,4 +1,4 @@
-"""C06 — bounded stand-in on temporary trees (runtime/h_fs.py)."""
+"""C06 — frame obligations over global state (pyvc/frame.py) + bounded stand-in on temporary trees (runtime/h_fs.py)."""
 ID = "C06"
 LEVEL = "exploration"
 FUNCTIONS = []
@@ -6,6 +6,22 @@ TRUSTED = ["the file system of the sandbox; Pygments; pathspec"]
 ASSUMPTIONS = []
 BOUND = 'canonical corpus (every 6th program of 7 languages + a malformed text per language) analysed in subprocesses under PYTHONHASHSEED in {0,1,7,12345} (thorough 12 seeds) x 2 file orders (thorough 4); repeated analysis in one process; two from-scratch scans; a scan after another tree was scanned in the same process'
 RULE = 'all results must be identical (reports modulo uuid, timestamp, file order)'
+
+
+ROOTS = ["codelimit.common.Scanner:scan_path", "codelimit.commands.check:check_file", "codelimit.commands.scan:scan_command"]
+
+
+def extra_obligations(eng, driver):
+    """Frame obligations (pyvc/frame.py): the functions reachable from scan_path / check_file / scan_command keep no state that
+    outlives a call and read no hash-seed-, time- or process-dependent input. They are decided on the AST of the real code, for all
+    inputs; a function for which the syntactic argument fails is listed under not_established and left to the bounded stand-in."""
+    from pyvc import frame
+    roots = [r for r in ROOTS if eng.repo.has_func(r)]
+    obs, notes, facts = frame.obligations(eng, roots, ID)
+    if not obs:
+        raise RuntimeError("no frame obligations generated")
+    return obs, {"frame_roots": roots, "functions_reachable": len(facts), "frame_obligations_established": len(obs),
+                 "not_established (covered only by the bounded stand-in: hash seeds, orders, in-process histories)": notes}
 
 
 def bounded(tier, seed, fallback_for):
